@@ -780,7 +780,7 @@ pub fn gen_history(rng: &mut Rng, n: usize, mixk: Mix, small: bool) -> Vec<Step>
             2 => Op::PushCopy(len(rng)),
             3 => Op::Extend(lens(rng, small)),
             4 => {
-                if !small && rng.chance(1, 60) {
+                if !small && rng.chance(1, 500) {
                     // a read larger than the arena's largest regular chunk (1 MiB)
                     Op::AnchoredPush(rng.range(1_048_570, 1_400_000), rng.below(4) as u8)
                 } else {
@@ -797,7 +797,14 @@ pub fn gen_history(rng: &mut Rng, n: usize, mixk: Mix, small: bool) -> Vec<Step>
             12 => Op::Clone,
             13 => Op::DropIovec,
             14 => Op::Flush,
-            15 => Op::Ensure(if small { rng.range(1, 5000) } else { *rng.pick(&[1usize, 100, 4096, 4097, 8192, 70_000, 300_000, 1_048_576, 1_048_577, 1_300_000, 2_500_000]) }),
+            15 => Op::Ensure(if small {
+                rng.range(1, 5000)
+            } else if rng.chance(1, 25) {
+                // beyond the arena's largest regular chunk (1 MiB)
+                *rng.pick(&[1_048_576usize, 1_048_577, 1_300_000, 2_500_000])
+            } else {
+                *rng.pick(&[1usize, 100, 4096, 4097, 8192, 70_000, 300_000])
+            }),
             16 => Op::TakeArena,
             17 => Op::SwapArenaWithHeld,
             18 => Op::SwapArenaBetween,
